@@ -34,12 +34,14 @@ def shards(tier, seed):
     # the library as it is installed: built from the tree (setup.py build, what a wheel would contain), not the source directory
     out += [{"id": "built-" + n, "sgio": s, "iscsi": i, "n": 10 if tier == "quick" else 100, "version": VERSIONS[(seed + 3 + k) % len(VERSIONS)], "built": True}
             for k, (n, s, i) in enumerate(CONFIGS) if n in ("none", "both")]
+    out += [{"id": "zipped-" + n, "sgio": s, "iscsi": i, "n": 5 if tier == "quick" else 50, "version": VERSIONS[(seed + 1 + k) % len(VERSIONS)], "built": "zip"}
+            for k, (n, s, i) in enumerate(CONFIGS) if n in ("none", "both")]
     # both bindings installed, once per release string of their package metadata
     out += [{"id": "both-v" + v, "sgio": True, "iscsi": True, "n": 2, "version": v} for v in VERSIONS]
     return out
 
 
-def use_built_copy(ctx):
+def use_built_copy(ctx, zipped=False):
     """build the tree under test into a scratch directory and put *that* first on the import path"""
     import shutil
     import subprocess
@@ -56,6 +58,21 @@ def use_built_copy(ctx):
     if p.returncode != 0 or not os.path.isdir(os.path.join(out, "pyscsi")):
         ctx.inconclusive_because("the tree could not be built: %s" % p.stdout.decode(errors="replace")[-300:])
         return False
+    if zipped:
+        # ... packed into one archive (zipapp / pex style bundles, PYTHONPATH=libs.zip): everything the build put next to the
+        # modules is inside the archive, there is no directory on disk
+        import zipfile
+
+        arch = os.path.join(out, "libs.zip")
+        with zipfile.ZipFile(arch, "w") as z:
+            for root, _dirs, files in os.walk(out):
+                for fn in files:
+                    full = os.path.join(root, fn)
+                    if full != arch and "__pycache__" not in full:
+                        z.write(full, os.path.relpath(full, out))
+        shutil.rmtree(os.path.join(out, "pyscsi"))
+        out = arch
+        ctx.count("zipped_copies")
     sys.path[:] = [out] + [x for x in sys.path if os.path.realpath(x) != repo.REPO]
     # the development install of /repo (an editable finder at the end of sys.meta_path) would answer for whatever the built copy lacks
     sys.meta_path[:] = [f for f in sys.meta_path if "__editable__" not in str(getattr(f, "__module__", "")) and "Editable" not in type(f).__name__]
@@ -100,7 +117,7 @@ def run(shard, ctx):
         ctx.inconclusive_because("pyscsi device modules were imported before the configuration was set up")
         return
     cfg = shard["id"]
-    if shard.get("built") and not use_built_copy(ctx):
+    if shard.get("built") and not use_built_copy(ctx, zipped=shard.get("built") == "zip"):
         return
     binding_metadata(shard)
     ctx.add("binding_versions", shard["version"])
@@ -481,7 +498,7 @@ def run(shard, ctx):
 
 def finalize(merged, tier):
     c = merged["counters"]
-    if merged["shards"] not in (12, 24):  # 4 configurations from the source tree, 2 from a built copy, 6 binding releases; each also in the -O -W error interpreter
+    if merged["shards"] not in (14, 28):  # 4 configurations from the source tree, 2 from a built copy, 6 binding releases; each also in the -O -W error interpreter
         merged["inconclusive"].append("not all 4 configurations ran")
     for k in ("modules_imported", "commands_built", "device_string_cases", "facade_plain_ok"):
         if c.get(k, 0) == 0:
